@@ -133,13 +133,10 @@ theorem assign_values (A : AssignOp γ) (kv : List (Name × γ)) (F : Frame γ) 
         · simpa using hh
       rw [A.op_other _ _ c hkey', A.op_other kv F c hkey0]
       have hcF : c ∈ F.cols := by
-        rw [A.op_cols, List.mem_append] at hwf
+        rw [A.op_cols, mem_assignLabels] at hwf
         rcases hwf with hh | hh
         · exact hh
-        · exfalso
-          have := (List.mem_filter.mp hh).1
-          rw [mem_dedup] at this
-          exact hkey (List.contains_iff_mem.mpr this)
+        · exact absurd (List.contains_iff_mem.mpr hh) hkey
       apply select_val_mem
       apply (assign_child_adequate F.cols (kv.map (·.1)) p deps).req c _ hcF
       rw [List.mem_filter]
